@@ -247,7 +247,8 @@ theorem C15_sleeps_overlap (d : Nat) (v : Nat → Nat) (ts : List Nat) :
       (schedLoop f p).suspend = ((List.range (ts.length + 1)).reverse.map (fun i => (min U64MAX (d + p.now), w + i))) ++ p.suspend ∧
       (schedLoop f p).workers = p.workers.take w ++ (t :: ts).map (fun u => { task := some u, rest := [.ret (v u)] }) ∧
       (schedLoop f p).tasks = [(0, [])] ∧ (schedLoop f p).ready = [] ∧ (schedLoop f p).now = p.now ∧
-      (schedLoop f p).running = p.running + ts.length ∧ (schedLoop f p).results = p.results := by
+      (schedLoop f p).running = p.running + ts.length ∧ (schedLoop f p).results = p.results ∧
+      (schedLoop f p).cancelCos = p.cancelCos ∧ (schedLoop f p).noWaits = p.noWaits := by
   induction ts with
   | nil =>
     intro p w t f h hf
@@ -261,7 +262,7 @@ theorem C15_sleeps_overlap (d : Nat) (v : Nat → Nat) (ts : List Nat) :
       rcases he with rfl | he
       · exact h.sleeps
       · exact h.late e he)]
-    refine ⟨rfl, by simp, ?_, rfl, rfl, rfl, by simp, rfl⟩
+    refine ⟨rfl, by simp, ?_, rfl, rfl, rfl, by simp, rfl, rfl, rfl⟩
     simp only [List.map_cons, List.map_nil]
     exact set_last _ _ _ h.last
   | cons t' ts ih =>
@@ -284,14 +285,16 @@ theorem C15_sleeps_overlap (d : Nat) (v : Nat → Nat) (ts : List Nat) :
         · exact h.sleeps
         · exact h.late e he
       · have := h.room; simp at this ⊢; omega
-    obtain ⟨i1, i2, i3, i4, i5, i6, i7, i8⟩ := ih _ (w + 1) t' g hnext (by simp at hf; omega)
+    obtain ⟨i1, i2, i3, i4, i5, i6, i7, i8, i9, i10⟩ := ih _ (w + 1) t' g hnext (by simp at hf; omega)
     have n1 : (next p w t t' ts d (v t)).started = p.started ++ [t] := rfl
     have n2 : (next p w t t' ts d (v t)).suspend = (min U64MAX (d + p.now), w) :: p.suspend := rfl
     have n3 : (next p w t t' ts d (v t)).workers = p.workers.set w { task := some t, rest := [.ret (v t)] } ++ [({} : Worker)] := rfl
     have n4 : (next p w t t' ts d (v t)).now = p.now := rfl
     have n5 : (next p w t t' ts d (v t)).running = p.running + 1 := rfl
     have n6 : (next p w t t' ts d (v t)).results = p.results := rfl
-    refine ⟨by rw [i1, n1]; simp, ?_, ?_, i4, i5, by rw [i6, n4], by rw [i7, n5]; simp; omega, by rw [i8, n6]⟩
+    have n7 : (next p w t t' ts d (v t)).cancelCos = p.cancelCos := rfl
+    have n8 : (next p w t t' ts d (v t)).noWaits = p.noWaits := rfl
+    refine ⟨by rw [i1, n1]; simp, ?_, ?_, i4, i5, by rw [i6, n4], by rw [i7, n5]; simp; omega, by rw [i8, n6], by rw [i9, n7], by rw [i10, n8]⟩
     · rw [i2, n2, n4]
       simp only [List.length_cons]
       rw [range_rev_shift _ w (ts.length + 1)]
@@ -372,7 +375,7 @@ theorem C15_n_sleepers_one_d (m t0 d : Nat) (vs : List Nat) (hN : vs ≠ []) (hm
     simp [List.getElem?_eq_getElem hu', List.getD_eq_getElem?_getD]
   have hfuel : (List.range' 1 vs'.length).length + 1 < stepFuel p + p.tasks.len + 4 := by
     simp [htasks, PQ.len]; omega
-  obtain ⟨r1, r2, r3, r4, r5, r6, r7, r8⟩ := C15_sleeps_overlap d _ _ _ 0 0 _ hst hfuel
+  obtain ⟨r1, r2, r3, r4, r5, r6, r7, r8, _, _⟩ := C15_sleeps_overlap d _ _ _ 0 0 _ hst hfuel
   refine ⟨?_, ?_, ?_, by rw [r4]; rfl, r5, by rw [r6]; exact s8, by rw [r7]; simp; omega, by rw [r8]; exact s12⟩
   · rw [r1]; simp [s11, List.range_eq_range', List.range'_succ]
   · rw [r2]; simp [s5]
@@ -381,6 +384,262 @@ theorem C15_n_sleepers_one_d (m t0 d : Nat) (vs : List Nat) (hN : vs ≠ []) (hm
     simp only [s5, List.append_nil, List.mem_map] at he
     obtain ⟨i, _, rfl⟩ := he
     simp only [s8]; rw [hT]
+
+/-! ### the second half: everybody wakes at `t₀ + d` and finishes in that pass -/
+
+theorem minDue_head (T w : Nat) (l : List (Nat × Nat)) (now : Nat) (hT : T ≤ now) (hall : ∀ e ∈ l, e.1 = T) :
+    minDue ((T, w) :: l) now = some (T, w) := by
+  unfold minDue
+  have hf : ((T, w) :: l).filter (fun e => decide (e.1 ≤ now)) = (T, w) :: l := by
+    rw [List.filter_eq_self]
+    intro e he
+    rcases List.mem_cons.mp he with rfl | he
+    · simpa using hT
+    · simp [hall e he, hT]
+  rw [hf]
+  simp only [List.foldl_cons]
+  have key : ∀ (xs : List (Nat × Nat)), (∀ e ∈ xs, e.1 = T) →
+      xs.foldl (fun acc e => match acc with
+        | none => some e
+        | some a => if e.1 < a.1 then some e else some a) (some (T, w)) = some (T, w) := by
+    intro xs
+    induction xs with
+    | nil => intro _; rfl
+    | cons x xs ih =>
+      intro h
+      simp only [List.foldl_cons]
+      have hx : x.1 = T := h x List.mem_cons_self
+      simp only [hx, Nat.lt_irrefl, if_false]
+      exact ih (fun e he => h e (List.mem_cons_of_mem _ he))
+  exact key l hall
+
+/-- the wake step moves every due entry — here: a suspend heap whose entries all carry the same,
+due, time and distinct workers — into the run queue, in heap-list order -/
+theorem wake_all_equal (T : Nat) (ws : List Nat) (hnd : ws.Nodup) :
+    ∀ (q : Pool) (f : Nat), q.suspend = ws.map (fun w => (T, w)) → T ≤ q.now → ws.length < f →
+      wake f q = { q with suspend := [], ready := q.ready ++ ws } := by
+  induction ws with
+  | nil =>
+    intro q f hs hT hf
+    cases f with
+    | zero => omega
+    | succ f =>
+      unfold wake
+      simp only [List.map_nil] at hs
+      simp only [hs, minDue, List.filter_nil, List.foldl_nil, List.append_nil]
+      cases q; simp_all
+  | cons w ws ih =>
+    intro q f hs hT hf
+    cases f with
+    | zero => omega
+    | succ f =>
+      unfold wake
+      simp only [List.map_cons] at hs
+      rw [hs, minDue_head T w _ q.now hT (by intro e he; simp only [List.mem_map] at he; obtain ⟨x, _, rfl⟩ := he; rfl)]
+      simp only
+      have hnd' := List.nodup_cons.mp hnd
+      have hfil : ((T, w) :: ws.map (fun w => (T, w))).filter (fun e => e != (T, w)) = ws.map (fun w => (T, w)) := by
+        simp only [List.filter_cons, bne_self_eq_false, Bool.false_eq_true, if_false]
+        rw [List.filter_eq_self]
+        intro e he
+        simp only [List.mem_map] at he
+        obtain ⟨x, hx, rfl⟩ := he
+        have : x ≠ w := by intro h; subst h; exact hnd'.1 hx
+        simp [this]
+      rw [hfil]
+      rw [ih hnd'.2 { q with suspend := ws.map (fun w => (T, w)), ready := q.ready ++ [w] } f rfl hT (by simp at hf; omega)]
+      simp [List.append_assoc]
+
+/-- the state after worker `i`, woken with only `ret v` left of task `u`, has published the result
+and — the queue being empty — left its loop -/
+def afterFinish (q : Pool) (i u v : Nat) (rest : List Nat) : Pool :=
+  setWorker { (setResult { q with ready := rest, runningTasks := q.runningTasks.filter (fun e => e.1 != u) } u (.ok v)) with running := q.running - 1 } i { task := none, rest := [], alive := false }
+
+theorem iter_finish (f : Nat) (q : Pool) (i u v : Nat) (rest : List Nat)
+    (hready : q.ready = i :: rest) (hnosusp : q.suspend = [])
+    (hw : q.workers[i]? = some { task := some u, rest := [.ret v] })
+    (hcc : q.cancelCos.contains i = false) (hnw : q.noWaits.contains u = false)
+    (htasks : q.tasks.popMin = none) :
+    schedLoop (f + 1) q = schedLoop f (afterFinish q i u v rest) := by
+  have hwl : i < q.workers.length := (List.getElem?_eq_some_iff.mp hw).1
+  have key : schedLoop (f + 1) q =
+      schedLoop f (resumeWorker (stepFuel { q with ready := rest }) { q with ready := rest } i) := by
+    have hwk : wake (q.suspend.length + 1) q = q := wake_nothing_due _ q (by intro e he; rw [hnosusp] at he; simp at he)
+    conv => lhs; unfold schedLoop
+    simp only [hwk, hready, hcc, Bool.false_eq_true, if_false]
+  rw [key]
+  obtain ⟨g, hg⟩ := stepFuel_ge { q with ready := rest }
+  rw [hg]
+  congr 1
+  -- first step: `ret v` finishes the task; second step: nothing queued, the worker leaves
+  conv => lhs; unfold resumeWorker
+  simp only [hw, Bool.not_true, Bool.false_eq_true, if_false]
+  unfold finish
+  simp only [hnw, Bool.false_eq_true, if_false]
+  conv => lhs; unfold resumeWorker
+  simp [setWorker, setResult, hwl, htasks, afterFinish, List.set_set]
+
+
+theorem nodup_rev (l : List Nat) (h : l.Nodup) : l.reverse.Nodup := (List.reverse_perm l).nodup_iff.mpr h
+
+/-- woken sleepers `(worker, task, value)`, in run-queue order, each with only its `ret` left -/
+structure Finishing (q : Pool) (ws : List (Nat × Nat × Nat)) : Prop where
+  ready : q.ready = ws.map (·.1)
+  nosusp : q.suspend = []
+  workers : ∀ e ∈ ws, q.workers[e.1]? = some { task := some e.2.1, rest := [.ret e.2.2] }
+  nodupW : (ws.map (·.1)).Nodup
+  nodupT : (ws.map (·.2.1)).Nodup
+  noCancel : q.cancelCos = []
+  noNoWaits : q.noWaits = []
+  tasks : q.tasks.popMin = none
+
+theorem finish_all (ws : List (Nat × Nat × Nat)) :
+    ∀ (q : Pool) (f : Nat), Finishing q ws → ws.length < f →
+      (schedLoop f q).running = q.running - ws.length ∧ (schedLoop f q).ready = [] ∧
+      (∀ e ∈ ws, (e.2.1, Outcome.ok e.2.2) ∈ (schedLoop f q).results) ∧
+      (∀ x ∈ q.results, x.1 ∉ ws.map (·.2.1) → x ∈ (schedLoop f q).results) := by
+  induction ws with
+  | nil =>
+    intro q f h _
+    rw [schedLoop_idle f q (by simpa using h.ready) (by intro e he; rw [h.nosusp] at he; simp at he)]
+    exact ⟨by simp, by simpa using h.ready, by intro e he; simp at he, fun x hx _ => hx⟩
+  | cons e es ih =>
+    intro q f h hf
+    obtain ⟨i, u, v⟩ := e
+    obtain ⟨g, rfl⟩ : ∃ g, f = g + 1 := ⟨f - 1, by simp at hf; omega⟩
+    have hw := h.workers (i, u, v) List.mem_cons_self
+    rw [iter_finish g q i u v (es.map (·.1)) (by simpa using h.ready) h.nosusp hw (by simp [h.noCancel]) (by simp [h.noNoWaits]) h.tasks]
+    have hndW := List.nodup_cons.mp (by simpa using h.nodupW : (i :: es.map (·.1)).Nodup)
+    have hndT := List.nodup_cons.mp (by simpa using h.nodupT : (u :: es.map (·.2.1)).Nodup)
+    have hnext : Finishing (afterFinish q i u v (es.map (·.1))) es := by
+      refine ⟨rfl, h.nosusp, ?_, hndW.2, hndT.2, h.noCancel, h.noNoWaits, h.tasks⟩
+      intro e' he'
+      have hne : e'.1 ≠ i := by
+        intro heq; apply hndW.1; rw [← heq]; exact List.mem_map_of_mem he'
+      have := h.workers e' (List.mem_cons_of_mem _ he')
+      simp only [afterFinish, setWorker, setResult]
+      rw [List.getElem?_set_ne (Ne.symm hne)]
+      exact this
+    obtain ⟨a, b, c, d⟩ := ih _ g hnext (by simp at hf; omega)
+    have hres : (afterFinish q i u v (es.map (·.1))).results = (u, Outcome.ok v) :: q.results.filter (fun x => x.1 != u) := rfl
+    have hrun : (afterFinish q i u v (es.map (·.1))).running = q.running - 1 := rfl
+    refine ⟨by rw [a, hrun]; simp; omega, b, ?_, ?_⟩
+    · intro e' he'
+      rcases List.mem_cons.mp he' with rfl | he'
+      · exact d (u, Outcome.ok v) (by rw [hres]; exact List.mem_cons_self) hndT.1
+      · exact c e' he'
+    · intro x hx hnot
+      simp only [List.map_cons, List.mem_cons, not_or] at hnot
+      exact d x (by rw [hres]; exact List.mem_cons_of_mem _ (by simp [List.mem_filter, hx, hnot.1])) hnot.2
+
+theorem schedLoop_after_wake (f : Nat) (q q' : Pool) (hw : wake (q.suspend.length + 1) q = q') (hq' : q'.suspend = []) :
+    schedLoop (f + 1) q = schedLoop (f + 1) q' := by
+  have h2 : wake (q'.suspend.length + 1) q' = q' := wake_nothing_due _ q' (by intro e he; rw [hq'] at he; simp at he)
+  conv => lhs; unfold schedLoop
+  conv => rhs; unfold schedLoop
+  simp only [hw, h2]
+
+theorem pass_running (q : Pool) (h : q.state = .running) :
+    pass q = some (schedLoop (stepFuel q + q.tasks.len + 4) (tryGrow q)) := by
+  unfold pass; split
+  · rename_i hs; rw [h] at hs; simp at hs
+  · rfl
+
+/-- **N sleepers are all done after d.** The scenario of `C15_n_sleepers_one_d`, carried through the
+pass at `t₀ + d`: every one of the `N` tasks has then published its own value and no worker is left —
+the whole batch takes `d`, for every `N`, `d`, `t₀`. -/
+theorem C15_n_sleepers_done (m t0 d : Nat) (vs : List Nat) (hN : vs ≠ []) (hm : vs.length ≤ m)
+    (hd : 0 < d) (hov : t0 + d ≤ U64MAX) :
+    ∃ q1 q2, pass (submitSleepers { maxSize := m, now := t0 } vs d) = some q1 ∧
+      pass { q1 with now := t0 + d } = some q2 ∧
+      (∀ i, (hi : i < vs.length) → (i, Outcome.ok vs[i]) ∈ q2.results) ∧ q2.running = 0 ∧ q2.ready = [] := by
+  obtain ⟨s1, s2, s3, s4, s5, s6, s7, s8, s9, s10, s11, s12, s13⟩ :=
+    submitSleepers_spec vs d { maxSize := m, now := t0 } [] rfl rfl
+  obtain ⟨v0, vs', rfl⟩ := List.exists_cons_of_ne_nil hN
+  dsimp only at s2 s3 s4 s5 s6 s7 s8 s9 s10 s11 s12
+  simp only [List.nil_append, List.length_nil, List.length_cons, List.range'_succ] at s1
+  generalize hp : submitSleepers { maxSize := m, now := t0 } (v0 :: vs') d = p at *
+  have htasks : p.tasks = [(0, 0 :: List.range' 1 vs'.length)] := by simpa using s1
+  have hT : min U64MAX (d + t0) = t0 + d := by unfold U64MAX at *; omega
+  have hg : tryGrow p = { p with workers := [{}], ready := [0], running := 1 } := by
+    unfold tryGrow
+    have h1 : ¬ p.tasks.vals = [] := by simp [htasks, PQ.vals]
+    have h2 : p.maxSize ≠ 0 := by rw [s7]; simp at hm; omega
+    simp [h1, h2, s3, s4, s6]
+  let vf : Nat → Nat := fun u => (v0 :: vs').getD u 0
+  have hst : Starting { p with workers := [{}], ready := [0], running := 1 } 0 0 (List.range' 1 vs'.length) d vf := by
+    refine ⟨rfl, rfl, rfl, htasks, ?_, s9, s10, by simp [s5], by simp only [s8]; rw [hT]; omega, by simp [s7]; simp at hm; omega⟩
+    intro u hu
+    have hu' : u < (v0 :: vs').length := by
+      simp only [List.mem_cons, List.mem_range'_1] at hu
+      simp; omega
+    simp only [s2, List.nil_append]
+    rw [List.getD_eq_getElem?_getD, List.getElem?_map]
+    simp [vf, List.getElem?_eq_getElem hu', List.getD_eq_getElem?_getD]
+  have hfuel : (List.range' 1 vs'.length).length + 1 < stepFuel p + p.tasks.len + 4 := by
+    simp [htasks, PQ.len]; omega
+  obtain ⟨r1, r2, r3, r4, r5, r6, r7, r8, r9, r10⟩ := C15_sleeps_overlap d vf _ _ 0 0 _ hst hfuel
+  generalize hq1 : schedLoop (stepFuel p + p.tasks.len + 4) { p with workers := [{}], ready := [0], running := 1 } = q1 at *
+  have hstate : q1.state = .running := by rw [← hq1, schedLoop_state]; exact s13
+  have hng : tryGrow { q1 with now := t0 + d } = { q1 with now := t0 + d } := by simp [tryGrow, r4, PQ.vals]
+  obtain ⟨N, hNdef⟩ : ∃ N, N = vs'.length + 1 := ⟨_, rfl⟩
+  have hrange : (0 :: List.range' 1 vs'.length) = List.range N := by
+    rw [hNdef]; simp [List.range_eq_range', List.range'_succ]
+  have hsusp : ({ q1 with now := t0 + d } : Pool).suspend = (List.range N).reverse.map (fun w => (t0 + d, w)) := by
+    show q1.suspend = _
+    rw [r2]; simp only [s5, List.append_nil, s8, hT, Nat.zero_add, List.length_range', hNdef]
+  have hwake := wake_all_equal (t0 + d) (List.range N).reverse (nodup_rev _ List.nodup_range) { q1 with now := t0 + d }
+    (({ q1 with now := t0 + d } : Pool).suspend.length + 1) hsusp (Nat.le_refl _) (by rw [hsusp]; simp)
+  have hfin : Finishing { ({ q1 with now := t0 + d } : Pool) with suspend := [], ready := ({ q1 with now := t0 + d } : Pool).ready ++ (List.range N).reverse }
+      ((List.range N).reverse.map (fun i => (i, i, vf i))) := by
+    refine ⟨?_, rfl, ?_, ?_, ?_, ?_, ?_, ?_⟩
+    · simp [r5, List.map_map, Function.comp_def]
+    · intro e he
+      simp only [List.mem_map, List.mem_reverse, List.mem_range] at he
+      obtain ⟨i, hi, rfl⟩ := he
+      simp only [r3, List.take_zero, List.nil_append, hrange]
+      rw [List.getElem?_map, List.getElem?_range hi]
+      rfl
+    · simp only [List.map_map, Function.comp_def, List.map_id']; exact nodup_rev _ List.nodup_range
+    · simp only [List.map_map, Function.comp_def, List.map_id']; exact nodup_rev _ List.nodup_range
+    · show q1.cancelCos = []; rw [r9]; exact s10
+    · show q1.noWaits = []
+      rw [r10]
+      -- submitting tasks never touches the set of unwanted results
+      have : ∀ (vs : List Nat) (p0 : Pool), (submitSleepers p0 vs d).noWaits = p0.noWaits := by
+        intro vs
+        induction vs with
+        | nil => intro p0; rfl
+        | cons v vs ih =>
+          intro p0
+          unfold submitSleepers at ih ⊢
+          rw [List.foldl_cons, ih]
+          unfold submit; split <;> rfl
+      rw [← hp, this]
+    · show q1.tasks.popMin = none
+      rw [r4]; rfl
+  obtain ⟨F, hF⟩ : ∃ F, stepFuel ({ q1 with now := t0 + d } : Pool) + ({ q1 with now := t0 + d } : Pool).tasks.len + 4 = F + 1 := ⟨_, rfl⟩
+  obtain ⟨a, b, c, _⟩ := finish_all _ _ (F + 1) hfin (by
+    simp only [List.length_map, List.length_reverse, List.length_range]
+    have hwl : ({ q1 with now := t0 + d } : Pool).workers.length = N := by
+      show q1.workers.length = N
+      rw [r3]; simp [hNdef]
+    have : stepFuel ({ q1 with now := t0 + d } : Pool) ≥ 2 * N + 8 := by
+      unfold stepFuel; rw [hwl]; omega
+    omega)
+  refine ⟨q1, schedLoop (F + 1) { ({ q1 with now := t0 + d } : Pool) with suspend := [], ready := ({ q1 with now := t0 + d } : Pool).ready ++ (List.range N).reverse },
+    ?_, ?_, ?_, ?_, b⟩
+  · rw [pass_running p s13, hg, hq1]
+  · rw [pass_running _ (show ({ q1 with now := t0 + d } : Pool).state = .running from hstate), hng, hF,
+        schedLoop_after_wake F _ _ hwake rfl]
+  · intro i hi
+    have hiN : i < N := by rw [hNdef]; simpa using hi
+    have := c (i, i, vf i) (by simp only [List.mem_map, List.mem_reverse, List.mem_range]; exact ⟨i, hiN, rfl⟩)
+    simp only [vf, List.getD_eq_getElem?_getD, List.getElem?_eq_getElem hi, Option.getD_some] at this
+    exact this
+  · rw [a]
+    show q1.running - _ = 0
+    rw [r7]; simp [hNdef]; omega
 
 -- the whole story on concrete instances (evaluation, not the general claim): three sleepers of 500 ns
 -- on a pool of 3 are all done after the pass at t₀ + 500; on a pool of 1 they take three rounds
